@@ -25,6 +25,8 @@ func checkC17(c *Ctx) {
 	r.Rule("C17/REPLACE", "Deliver: Recipient.ShouldStore is consulted only on the edge where BeforeMessageStored returned nil")
 	r.Rule("C17/LUA/protect", "every (*LState).CallByParam passes lua.P{Protect: true}; before-handlers return nil on its error edge; unwrap* never return (non-nil, error)")
 	r.Rule("C17/POOL", "statePool.states/channels only under the pool mutex; getState stores the shrunk slice before returning the popped state; every function that obtains a state defers putState once, after the success check")
+	r.Rule("C17/LUA/fresh", "a Lua-callable constructor (func(*lua.LState) int) hands Lua only objects it allocates during that call: no value wrapped into LUserData.Value inside such a function derives from a captured variable or a package-level variable (it would be shared by every call and every pooled state)")
+	c.c17Fresh()
 	c.c17First()
 	c.c17Map()
 	c.c17Replace()
@@ -663,4 +665,136 @@ func returnsState(fn *ssa.Function) bool {
 		}
 	}
 	return false
+}
+
+// c17Fresh: objects a Lua-callable constructor returns must be per-call allocations.
+func (c *Ctx) c17Fresh() {
+	r, p := c.R, c.P
+	fns := pkgFuncs(p, luaRel)
+	// wrappers: luahost functions storing a parameter into LUserData.Value
+	isUDValue := func(addr ssa.Value) bool {
+		fa, ok := addr.(*ssa.FieldAddr)
+		if !ok {
+			return false
+		}
+		f := eng.FieldOfAddr(fa)
+		if f == nil || f.Name() != "Value" {
+			return false
+		}
+		t := fa.X.Type()
+		if pt, ok := t.Underlying().(*types.Pointer); ok {
+			t = pt.Elem()
+		}
+		n, ok := t.(*types.Named)
+		return ok && n.Obj().Name() == "LUserData"
+	}
+	unwrapMI := func(v ssa.Value) ssa.Value {
+		for {
+			switch x := v.(type) {
+			case *ssa.MakeInterface:
+				v = x.X
+				continue
+			case *ssa.ChangeInterface:
+				v = x.X
+				continue
+			}
+			return v
+		}
+	}
+	wrapperParam := map[*ssa.Function]int{}
+	for _, fn := range fns {
+		fn := fn
+		eng.EachInstr(fn, func(in ssa.Instruction) {
+			st, ok := in.(*ssa.Store)
+			if !ok || !isUDValue(st.Addr) {
+				return
+			}
+			if i := eng.ParamIndex(unwrapMI(st.Val)); i >= 0 {
+				wrapperParam[fn] = i
+			}
+		})
+	}
+	// shared: v derives (through loads, phis, address-of-field) from a free variable or a global
+	var shared func(v ssa.Value, fn *ssa.Function, depth int) string
+	shared = func(v ssa.Value, fn *ssa.Function, depth int) string {
+		if depth > 8 {
+			return ""
+		}
+		switch x := v.(type) {
+		case *ssa.FreeVar:
+			return "captured variable " + x.Name()
+		case *ssa.Global:
+			return "package variable " + x.Name()
+		case *ssa.UnOp:
+			return shared(x.X, fn, depth+1)
+		case *ssa.FieldAddr:
+			return shared(x.X, fn, depth+1)
+		case *ssa.IndexAddr:
+			return shared(x.X, fn, depth+1)
+		case *ssa.Phi:
+			for _, e := range x.Edges {
+				if w := shared(e, fn, depth+1); w != "" {
+					return w
+				}
+			}
+		case *ssa.MakeInterface:
+			return shared(x.X, fn, depth+1)
+		case *ssa.Alloc:
+			if x.Parent() != fn {
+				return "variable of " + shortFn(x.Parent())
+			}
+			// a local cell: look at what is stored into it
+			if cell := eng.CellOf(x); cell != nil {
+				for _, st := range eng.CellStores(cell) {
+					if _, isPtr := st.Val.Type().Underlying().(*types.Pointer); isPtr {
+						if w := shared(st.Val, fn, depth+1); w != "" {
+							return w
+						}
+					}
+				}
+			}
+		}
+		return ""
+	}
+	n := 0
+	ord := map[string]int{}
+	for _, fn := range fns {
+		fn := fn
+		sig := fn.Signature
+		if sig.Params().Len() != 1 || sig.Results().Len() != 1 {
+			continue
+		}
+		if pt, ok := sig.Params().At(0).Type().(*types.Pointer); !ok || !strings.HasSuffix(pt.Elem().String(), "gopher-lua.LState") {
+			continue
+		}
+		if b, ok := sig.Results().At(0).Type().Underlying().(*types.Basic); !ok || b.Kind() != types.Int {
+			continue
+		}
+		eng.EachInstr(fn, func(in ssa.Instruction) {
+			var val ssa.Value
+			switch x := in.(type) {
+			case *ssa.Store:
+				if isUDValue(x.Addr) {
+					val = unwrapMI(x.Val)
+				}
+			case *ssa.Call:
+				if g := eng.StaticCallee(x.Common()); g != nil {
+					if i, ok := wrapperParam[g]; ok && i < len(x.Call.Args) {
+						val = x.Call.Args[i]
+					}
+				}
+			}
+			if val == nil {
+				return
+			}
+			n++
+			cons := siteCons(p, in, ord, "wrapped-value")
+			if w := shared(val, fn, 0); w != "" {
+				r.Bad("C17/LUA/fresh", cons, p.InstrPos(in), "the object handed to Lua derives from a %s, so every call of this constructor (from every session and pooled state) returns and overwrites the same object: one hook's deny code/text replaces another's", w)
+			} else {
+				r.Ok("C17/LUA/fresh", cons, p.InstrPos(in), "the wrapped object is not derived from captured or package-level state")
+			}
+		})
+	}
+	r.Floor("C17/LUA/fresh", "objects wrapped for Lua inside Lua-callable functions", n, 1)
 }
